@@ -177,12 +177,22 @@ impl TryFrom<v1::Instance> for Instance {
                 field: "objective",
             })?
             .parse_as(&(), message, "objective")?;
+        check_variable_ids(&objective, &decision_variables)
+            .map_err(|e| e.context(message, "objective"))?;
 
         let constraints = value.constraints.parse_as(&(), message, "constraints")?;
+        for c in constraints.values() {
+            check_variable_ids(&c.function, &decision_variables)
+                .map_err(|e| e.context(message, "constraints"))?;
+        }
         let removed_constraints =
             value
                 .removed_constraints
                 .parse_as(&constraints, message, "removed_constraints")?;
+        for c in removed_constraints.values() {
+            check_variable_ids(&c.constraint.function, &decision_variables)
+                .map_err(|e| e.context(message, "removed_constraints"))?;
+        }
 
         let mut decision_variable_dependency = HashMap::new();
         for (id, f) in value.decision_variable_dependency {
@@ -213,6 +223,23 @@ impl TryFrom<v1::Instance> for Instance {
             constraint_hints,
         })
     }
+}
+
+/// Every variable ID used in a function must be a defined decision variable.
+fn check_variable_ids(
+    function: &Function,
+    decision_variables: &HashMap<VariableID, DecisionVariable>,
+) -> Result<(), ParseError> {
+    let ids = match function {
+        Function::Constant(_) => BTreeSet::new(),
+        Function::Linear(l) => l.used_decision_variable_ids(),
+        Function::Quadratic(q) => q.used_decision_variable_ids(),
+        Function::Polynomial(p) => p.used_decision_variable_ids(),
+    };
+    for id in ids {
+        as_variable_id(decision_variables, id)?;
+    }
+    Ok(())
 }
 
 fn as_constraint_id(
